@@ -48,6 +48,7 @@ class Builder:
         self.n += 1
         loc = "L%d" % self.n
         strip = mode in ("cond", "action")
+        sibling = None
         full_bs = dict(bs)
         code = G.render(tpl)
         rule = None
@@ -62,6 +63,11 @@ class Builder:
                 elif w < 0.30: cond = {"or": [cond]}
                 elif w < 0.55 and family in ("throw", "syntax"): cond = {"not": cond}
                 elif w < 0.65 and family in ("throw", "syntax"): cond = {"and": [{"not": {"or": [cond]}}]}
+                elif w < 0.82 and family != "syntax":
+                    # a sibling disjunct that runs first and returns an object binding every name the scripts treat as unbound:
+                    # its bindings are its own result only; the script under test must still see exactly ITS bindings
+                    sibling = {n: 1 for n in G.UNBOUND}
+                    cond = {"or": [{"code": "(%s)" % json.dumps(sibling)}, cond]}
                 rule["condition"] = cond
                 rule["action"] = {"code": "({ran: true})"}
             else:
@@ -87,6 +93,8 @@ class Builder:
         }
         if strip:
             run["rule"], run["event"], run["embedded"] = rule, event, embedded
+        if sibling:
+            run["sibling"] = sibling
         self.runs.append(run)
         return run
 
@@ -197,6 +205,14 @@ def judge(r, o, m, tol_ms):
         return "bad", "INTERNAL model driver rejected the case: %s" % m
     if m.get("collides"):
         return "skip", "two bindings strip to one name"
+    if r.get("sibling") and isinstance(o.get("actions"), list) and o.get("class") == "value":
+        # the sibling disjunct contributes one binding set of its own: account for it, then judge the script under test as usual
+        sib = dict(r["bs"], **{"?" + k: v for k, v in r["sibling"].items()})
+        acts = o["actions"]
+        idx = next((j for j, a in enumerate(acts) if canon(a.get("bindings")) == canon(sib)), None)
+        if idx is None:
+            return "bad", "the bindings returned by the sibling disjunct (%s) are not among the condition's results: %s" % (canon(sib)[:200], canon([a.get("bindings") for a in acts])[:300])
+        o = dict(o, actions=acts[:idx] + acts[idx + 1:])
     ic = impl_class(o)
     pc, pf, ph = m["pred_coded"], m["pred_fixed"], m["pred_half"]
     if ic == "nil" and m.get("script") == "value" and m.get("value") is None and "value" in m:
@@ -355,7 +371,7 @@ def main():
         for (sysc, ctl) in enabled_settings:
             for mode in modes:
                 bs, vis, kw = inputs(mode)
-                b.add(mode, {"t": "loop", "variant": rng.randint(0, 3)}, bs, sysc, ctl, dur_ms=-1, pre=2, family="loop", **kw)
+                b.add(mode, {"t": "loop", "variant": rng.randint(0, 5)}, bs, sysc, ctl, dur_ms=-1, pre=2, family="loop", **kw)
         # no location in the context: only the system default counts, whatever the control says
         for (sysc, ctl) in [({"on": True, "default_ms": rng.choice([150, 250])}, 600), ({"on": True, "default_ms": 200}, -1)]:
             b.add("noloc", {"t": "loop", "variant": rng.randint(0, 3)}, G.bindings(rng), sysc, ctl, dur_ms=-1, pre=2, family="loop-noloc")
@@ -477,6 +493,25 @@ def main():
                 ck.violation("Bindings.StripQuestionMarks(%s) = %s, model %s" % (canon(c["bs"]), canon(o), canon(m.get("stripped"))),
                              {"case": c, "impl": i, "model": m}, tag="strip")
                 break
+
+    # 5b. the limit of a location that lives on the default control (edited in place, as /api/sys/loccontrol does) is the one in
+    # force when the script runs, also when the location was used before the limit was changed; one process per case (globals)
+    dcases = [{"kind": "c14.defaultctl", "first_ns": a * MS, "then_ns": b * MS, "code": G.render({"t": "loop", "variant": v}), "wait_ms": b + 2500, "timeout_ms": 20000}
+              for v, (a, b) in enumerate([(8000, 150), (100, 900)] if not thorough else [(8000, 150), (100, 900), (-1, 200), (60000, 100), (50, 1500), (3000, 300)])]
+    dres = run_cases(drv, dcases, jobs=len(dcases), per_chunk=1)
+    dmod = run_cases(mdl, [{"kind": "c14.choose", "tc": {"on": True, "hasLoc": True, "control": c["then_ns"], "sysDefault": STOCK_DEFAULT_MS * MS}} for c in dcases])
+    for c, o, m in zip(dcases, dres, dmod):
+        ck.count(c, nontrivial=True)
+        sstats["default_control_cases"] = sstats.get("default_control_cases", 0) + 1
+        want = m.get("timeout")
+        if not isinstance(want, (int, float)):
+            ck.violation("INTERNAL: model gave no timeout for %s: %s" % (canon(c)[:200], canon(m)[:200]), {"case": c, "model": m}, tag="internal")
+            continue
+        want_ms = want / MS
+        ok = o.get("class") == "error" and o.get("errkind") == "timeout" and want_ms - 5 <= o.get("elapsed_ms", -1) <= want_ms + tol + 400
+        if not ok:
+            ck.violation("a location on the default control, used before the limit was set to %d ms in place, ran a non-terminating script: outcome %s after %.0f ms; the limit in force is %d ms (model chooseTimeout)" % (
+                want_ms, o.get("class"), o.get("elapsed_ms", -1), want_ms), {"case": c, "impl": o, "model": m}, tag="defaultctl")
 
     # 6. known findings: replay the witness
     # a finding that has been repaired by a `fix:` commit (listed under "fixed") is no longer tolerated: its class is judged like any other run
